@@ -164,7 +164,7 @@ def harness(sym, part):
 
 
 MUTANTS = [
-    ('parseline-resume-offset', 'hio/core/http/httping.py',
-     "def parseLine(raw, eols=(CRLF, LF, CR ), kind=\"event line\"):\n    \"\"\"\n    Generator to parse  line from raw bytearray\n    Each line demarcated by one of eols\n    kind is line type string for error message\n\n    Yields None If waiting for more to parse\n    Yields line Otherwise\n\n    Consumes parsed portions of raw bytearray\n\n    Raise error if eol not found before MAX_LINE_SIZE\n    \"\"\"\n    while True:\n        index = -1  # not found index == -1\n        for e in eols:  # find earliest eol in raw, first in eols wins a tie\n            i = raw.find(e)\n",
-     "def parseLine(raw, eols=(CRLF, LF, CR ), kind=\"event line\"):\n    offset = 0\n    while True:\n        index = -1  # not found index == -1\n        for e in eols:  # find earliest eol in raw, first in eols wins a tie\n            i = raw.find(e, offset)\n            offset = len(raw) if i < 0 and e == eols[-1] and index < 0 else (0 if i >= 0 else offset)\n"),
+    ('first-listed-terminator-wins', 'hio/core/http/httping.py',
+     "            skip = False\n        index = -1  # not found index == -1\n        for e in eols:  # find earliest eol in raw, first in eols wins a tie\n            i = raw.find(e)\n            if i >= 0 and (index < 0 or i < index):",
+     "            skip = False\n        index = -1  # not found index == -1\n        for e in eols:  # find earliest eol in raw, first in eols wins a tie\n            i = raw.find(e)\n            if i >= 0 and index < 0:"),
 ]
